@@ -222,6 +222,7 @@ static void exec_sched(const Json &plan, RunResult &rr, Hist &h)
         SimCpu cpu = cpu_from_plan(plan.at("cpu"));
         g_kern_portable = 0;
         g_kern_yield = yield_cb;
+        cpu_cold_start(); // deterministic baseline: which slots are resolved never depends on earlier runs of this process
         for (int i = 0; i < n; i++) {
                 Task &t = s.tasks[i];
                 t.id = i;
